@@ -47,3 +47,15 @@ pub fn thread_id(_t: &std::thread::Thread) -> std::thread::ThreadId {
     // SAFETY: ThreadId is a NonZero<u64>; CUR_TID is never 0.
     unsafe { core::mem::transmute::<u64, std::thread::ThreadId>(CUR_TID) }
 }
+
+/// Native replay only: make the process-wide CPU feature record the one the harness instance
+/// substitutes under Kani (`get_cpu_features => f`), through the guarded hook
+/// `zipora::system::cpu_features::verif_set_cpu_features`, so that a counterexample found for a
+/// modelled CPU tier is replayed on that tier. No effect under Kani (the stub is in force there).
+#[allow(unused_variables)]
+pub fn native_tier(f: fn() -> &'static zipora::system::cpu_features::CpuFeatures) {
+    #[cfg(not(kani))]
+    {
+        let _ = zipora::system::cpu_features::verif_set_cpu_features(f().clone());
+    }
+}
